@@ -1,6 +1,11 @@
 package parser
 
-import "strconv"
+import (
+	"errors"
+	"strconv"
+)
+
+var errNestingTooDeep = errors.New("expression is nested too deeply")
 
 type InvalidFunctionArgumentError struct {
 	function string
